@@ -258,6 +258,7 @@ ENTRY(h_c09){
         }
         irsym_assert(ex, X_DATA);
         tree.rebuild();
+        gTK.geom = false;        // the address registries describe the tree before rebuild()
         AlgoT algo2(cfg, upper);
         algo2.execute(tree);
         bool twice = true; long seen2 = 0;
